@@ -455,9 +455,9 @@ def reach (rcs : List RC) : Nat → List Nat → Nat → Except Err (List Nat)
       | some rc => rc.parents.foldlM (reach rcs fuel) (r :: seen)
 
 /-- iids of the explicit report commits that are not in `seen`, in `self.rcommits` order -/
-def notMerged (rcs : List RC) (seen : List Nat) : Nat → List RC → List Nat
+def notMerged (seen : List Nat) : Nat → List RC → List Nat
   | _, [] => []
-  | i, rc :: r => (if rc.explicit && !seen.contains i then [i] else []) ++ notMerged rcs seen (i + 1) r
+  | i, rc :: r => (if rc.explicit && !seen.contains i then [i] else []) ++ notMerged seen (i + 1) r
 
 def maxOf : List Nat → Option Nat
   | [] => none
@@ -477,7 +477,7 @@ def endBranch {π β} (pl : Plug π β) (first : Bool) (b : Branch) (st : St β)
   match rheads.foldlM (reach st.rp.rcs st.rp.rcs.length) [] with
   | .error e => .error e
   | .ok seen =>
-    let nm := if first then [] else notMerged st.rp.rcs seen 0 st.rp.rcs
+    let nm := if first then [] else notMerged seen 0 st.rp.rcs
     match buildsOf st.rp st.br.cur with
     | none => .error .keyError
     | some curBuilds =>
